@@ -482,6 +482,14 @@ func gen(rng *vh.Rng, n int, emit func(id string, sel int, in []int64, kind stri
 		{kCreate, qspec{name: 5, parent: 7, cap: cpu(50000)}},
 		{kCreate, qspec{name: 6, parent: 1, cap: cpu(10000)}}, mv(4, 6), mv(7, 6), mv(5, 6)}},
 		"fixed-subtree-capability-deep", "fixed/reparent-subtree-capability", emit)
+	// the bound is per dimension: q (nothing) <- c (cpu only) <- g (memory 64000); p (memory 32000); q.parent := p
+	finish(history{config{5, 0, 0}, []qspec{root, def}, []request{
+		mk(3, 1), {kCreate, qspec{name: 4, parent: 3, cap: cpu(4000)}},
+		{kCreate, qspec{name: 5, parent: 4, cap: rl{{3, 64000}}}},
+		{kCreate, qspec{name: 6, parent: 1, cap: rl{{3, 32000}}}}, mv(3, 6),
+		{kCreate, qspec{name: 7, parent: 1, cap: rl{{2, 2000}, {3, 64000}}}}, mv(3, 7),
+		{kCreate, qspec{name: 8, parent: 1, cap: rl{{3, 64000}}}}, mv(3, 8)}},
+		"fixed-subtree-capability-per-dimension", "fixed/reparent-subtree-capability", emit)
 	// the root queue itself given a parent
 	finish(history{config{5, 0, 1}, []qspec{root, def}, []request{mk(3, 1), mk(4, 3), mv(1, 4), mv(1, 1), mk(5, 4), mv(3, 5)}},
 		"fixed-root-reparent", "fixed/root-given-a-parent", emit)
@@ -489,6 +497,10 @@ func gen(rng *vh.Rng, n int, emit func(id string, sel int, in []int64, kind stri
 	for i := 0; i < n; i++ {
 		r := rng.Fork()
 		g := &gctx{r: r}
+		if r.Chance(1, 6) {
+			finish(g.directedMove(), fmt.Sprintf("hist-%d", i), "history/directed-subtree-move", emit)
+			continue
+		}
 		cfg := g.genConfig()
 		kind := "history/from-root"
 		q0 := baseQ0(r)
